@@ -110,7 +110,10 @@ class Verdict:
         ev = dict(property_id=self.prop, tier=self.tier, seed=self.seed, level=self.level, coverage=cov,
                   assumptions=self.assumptions, wall_s=round(time.time() - self.t0, 2),
                   violations=len(seen), known_findings=sorted(self.known_hits), notes=self.notes)
-        with open(os.path.join(VERIF, "evidence", f"{self.prop}.json"), "w") as f:
+        # extension checks (ids "X..") are not listed properties: their evidence goes to evidence/extra/
+        edir = os.path.join(VERIF, "evidence", "extra") if self.prop.startswith("X") else os.path.join(VERIF, "evidence")
+        os.makedirs(edir, exist_ok=True)
+        with open(os.path.join(edir, f"{self.prop}.json"), "w") as f:
             json.dump(ev, f, indent=1, default=str)
         rk = os.environ.get("KDVERIF_REPLAY_KEY")
         if rk is not None:
